@@ -7,6 +7,18 @@ VERIF = Path(__file__).resolve().parent.parent
 HOOK_COMMITS: list[str] = []
 
 CLAIMED = {
+    "C20": dict(
+        category="model_checking",
+        text=("SchemaValid.tla transcribes the specification's type-system rules as one named predicate per rule (root types, directive definitions, reserved "
+              "names, non-empty types, input/output positions, interface implementation with IsSubType covariance / argument invariance / extra required "
+              "arguments / deprecation / transitive interfaces, union members, default values through input coercion, OneOf restrictions, unbreakable input "
+              "cycles). Valid generated schemas and every applicable single mutation (12 operators, 21 mutation classes) plus double mutations are built by "
+              "three routes (SDL with and without pre-validation, programmatic); TLC decides for each whether the abstract schema is valid and the real "
+              "validate_schema must return an empty list exactly then, never raise, and a request against an invalid schema must return those errors only."),
+        design_ref="DESIGN.md 5/C20",
+        note="Only emptiness of the error list is compared with SchemaValid (not the per-rule mapping); schemas whose construction raises are outside the statement; default-value cycles are not mutated yet.",
+        technique="TLC evaluation of SchemaValid.tla on generated and mutated abstract schemas vs the real validate_schema",
+    ),
     "C01": dict(
         category="model_checking",
         text=("Bounded-exhaustive spec->code: TLC enumerates every string '\"'+w over a 12-symbol escape alphabet (|w|<=4 quick, <=6 thorough) and all "
